@@ -51,6 +51,13 @@ impl Lexer {
     { unimplemented!() }
 
     #[verifier::external_body]
+    pub fn peek_n_backwards(&self, n: usize) -> (r: Option<Token>)
+        ensures
+            (n <= self.cursor && self.cursor - n < self.buf.len()) ==> r == Some(self.buf@[self.cursor - n]),
+            !(n <= self.cursor && self.cursor - n < self.buf.len()) ==> r is None,
+    { unimplemented!() }
+
+    #[verifier::external_body]
     pub fn next_char_is(&self, c: char) -> (r: bool)
         ensures r == (self.cursor < self.buf.len() && self.buf@[self.cursor as int].kind == c)
     { unimplemented!() }
